@@ -34,13 +34,21 @@ def main():
     cenv = dict(os.environ, VERIF_REPO=str(wt), VERIF_EVIDENCE_DIR='/tmp/vseed-evidence', VERIF_LEAN_DIR=str(lean))
     try:
         rc, out = sh(f'git apply --check {src}/patch.diff', cwd=wt)
+        apply_cmd = f'git apply {src}/patch.diff'
+        if rc != 0:
+            # /repo HEAD moved (fix commits) since the patch was written: accept it when it still applies with fuzz
+            rc2, out2 = sh(f'patch -p1 -F3 --dry-run < {src}/patch.diff', cwd=wt)
+            if rc2 == 0:
+                apply_cmd = f'patch -p1 -F3 --no-backup-if-mismatch < {src}/patch.diff'
+                meta['applied_with_fuzz'] = True
+                rc = 0
         meta['applies'] = rc == 0
         if rc != 0:
             meta['apply_error'] = out[-500:]
             print(json.dumps(meta, indent=1)); return 1
         rc0, out0 = sh(f'/venv/bin/python {src}/demo.py', cwd='/tmp', env=env, timeout=600)
         meta['demo_without_patch_rc'] = rc0
-        sh(f'git apply {src}/patch.diff', cwd=wt)
+        sh(apply_cmd, cwd=wt)
         rc1, out1 = sh(f'/venv/bin/python {src}/demo.py', cwd='/tmp', env=env, timeout=600)
         meta['demo_with_patch_rc'] = rc1
         meta['demo_with_patch_tail'] = out1[-600:]
